@@ -381,12 +381,19 @@ class Program:
 
     def adt_of_type(self, ty):
         h = ty_head(ty)
-        return self.adts.get(h)
+        a = self.adts.get(h)
+        if a is None and "::" in h and h.split("::")[0] in ("cfdp_core", "cfdp_daemon"):
+            # re-exported path (`cfdp_core::pdu::X` for `cfdp_core::pdu::header::X`)
+            last = h.split("::")[-1]
+            c = [v for k, v in self.adts.items() if k.split("::")[-1] == last and k.split("::")[0] == h.split("::")[0]]
+            if len(c) == 1:
+                a = c[0]
+        return a
 
     def variant_names(self, ty):
         """{discr value: name} for the enum type string, or None."""
         h = ty_head(ty)
-        a = self.adts.get(h)
+        a = self.adt_of_type(ty)
         if a and a["kind"] == "Enum":
             return {v["discr"]: v["name"] for v in a["variants"]}
         if h in STD_ENUMS:
@@ -480,10 +487,11 @@ MAX_DEPTH = 40
 
 
 class ExprBuilder:
-    def __init__(self, prog, fn, inline=True):
+    def __init__(self, prog, fn, inline=True, user_stop=False):
         self.prog = prog
         self.fn = fn
         self.inline = inline
+        self.user_stop = user_stop  # keep user variables as named places
         self.memo = {}
 
     def operand(self, o, depth=0, stack=()):
@@ -530,6 +538,10 @@ class ExprBuilder:
             return self.memo[key]
         if local in stack or depth > MAX_DEPTH:
             return ("cycle", local)
+        if self.user_stop and fn.locals[local]["user"] and local != 0:
+            r = ("place", place_to_str(fn, local, []), fn.locals[local]["ty"])
+            self.memo[key] = r
+            return r
         ds = fn.defs(local)
         full = [d for d in ds if d[0] in ("assign", "call", "yield", "arg")]
         partial = [d for d in ds if d[0] == "partial"]
@@ -558,6 +570,16 @@ class ExprBuilder:
         r = self._def_expr(d, depth + 1, stack + (local,))
         self.memo[key] = r
         return r
+
+    def var_defs(self, name):
+        """Definition expressions of the user variable `name` (whole assignments)."""
+        out = []
+        for vn, l, proj in self.fn.var_places:
+            if vn == name and not proj:
+                for d in self.fn.defs(l):
+                    if d[0] in ("assign", "call", "yield", "arg"):
+                        out.append(self._def_expr(d, 0, (l,)))
+        return out
 
     def _def_expr(self, d, depth, stack):
         if d[0] == "assign":
@@ -639,7 +661,7 @@ def _subst_self(e, recv):
     return tuple(_subst_self(x, recv) if isinstance(x, tuple) and x else x for x in e)
 
 
-def _inline_getter(prog, e):
+def _inline_getter(prog, e, mode="place"):
     """If e is a call of a local, straight-line `&self` function, return its return
     expression with `self` replaced by the receiver; else None."""
     _, decl, res, args, site, info = e
@@ -665,6 +687,9 @@ def _inline_getter(prog, e):
         prog._inline_cache[tgt] = body
     if body is None:
         return None
+    if mode == "place" and body[0] not in ("place", "const"):
+        # allow `*self.f` copies only; anything else stays an opaque call
+        return None
     recv = args[0]
     if recv[0] == "ref":
         recv = recv[2]
@@ -689,7 +714,7 @@ def _has_kind(e, kinds):
     return any(_has_kind(x, kinds) for x in e if isinstance(x, tuple) and x)
 
 
-Program.inline_getter = lambda self, e: _inline_getter(self, e)
+Program.inline_getter = lambda self, e, mode="place": _inline_getter(self, e, mode)
 
 
 def expr_str(e, depth=0):
